@@ -99,7 +99,7 @@ func plan(tier string, seed int64) []run.Batch {
 		}
 	}
 	if tier == "thorough" {
-		add("seq", 10, 240) // 2400 sequences of about 45 operations
+		add("seq", 5, 480) // 2400 sequences of about 45 operations (small batches: the watchdog is per batch)
 		add("keyreuse", 12, 4)
 		add("conc", 10, 8)
 		add("torn", 8, 6)
